@@ -3,6 +3,7 @@ package main
 import (
 	"fmt"
 	"go/ast"
+	"go/constant"
 	"go/types"
 	"sort"
 	"strings"
@@ -221,4 +222,147 @@ func ruleDigitsExtract(c *Ctx) {
 	env := p.newCanonEnv(fd)
 	body := env.canonStmts(fd.Body.List)
 	_ = body
+}
+
+// appendSpecial / writeSpecial: the text chosen for NaN and the infinities,
+// for every class, sign and sign-flag combination, by interpretation with the
+// operand's class fixed. The oracle is package fmt's float behaviour, which the
+// property names: NaN is "NaN" ("+NaN" with '+', " NaN" with ' ') whatever its
+// sign bit; -Inf is "-Inf"; +Inf is "+Inf" (" Inf" with ' ' and no '+').
+func ruleSpecialText(c *Ctx) {
+	p := c.P
+	props := []string{"C06", "C07", "C15"}
+	want := func(class string, neg, plus, space bool) string {
+		if class == "nan" {
+			switch {
+			case plus:
+				return "+NaN"
+			case space:
+				return " NaN"
+			}
+			return "NaN"
+		}
+		switch {
+		case neg:
+			return "-Inf"
+		case space && !plus:
+			return " Inf"
+		}
+		return "+Inf"
+	}
+	for _, fn := range []string{"Decimal.appendSpecial", "Decimal.writeSpecial"} {
+		fd := c.fn(fn)
+		if fd == nil {
+			continue
+		}
+		ps := paramObjs(p, fd)
+		if len(ps) != 5 {
+			c.undecided("special:"+fn, fd, "(dst, width, printSign, padSign, padRight) expected", props...)
+			continue
+		}
+		bad := ""
+		n := 0
+		for _, class := range []string{"nan", "inf"} {
+			for _, neg := range []bool{false, true} {
+				for _, plus := range []bool{false, true} {
+					for _, space := range []bool{false, true} {
+						in := newInterp(p)
+						decIntrinsics(in, false)
+						last := ""
+						in.onAssign = func(in *interp, st *state, l ast.Expr, v AV) {}
+						// the chosen text: the last package-level []byte assigned to a local
+						var chosen types.Object
+						in.evalLeaf = func(in *interp, st *state, e ast.Expr) (AV, bool) {
+							if id, ok := e.(*ast.Ident); ok {
+								if o, ok := p.Info.Uses[id].(*types.Var); ok && o.Parent() == p.Pkg.Types.Scope() {
+									if init := p.pkgVarInit(o.Name()); init != nil {
+										if s, ok := p.bytesLiteral(init); ok {
+											return avStr{s}, true
+										}
+									}
+								}
+							}
+							return nil, false
+						}
+						_ = chosen
+						st := newState()
+						recv := recvObj(p, fd)
+						st.vars[recv] = operand(0, cls{class, neg})
+						st.vars[ps[1]] = avInt{0}
+						st.vars[ps[2]] = avBool{plus}
+						st.vars[ps[3]] = avBool{space}
+						st.vars[ps[4]] = avBool{false}
+						in.curFn = append(in.curFn, fd)
+						// run the statements up to (excluding) the first one that reads the width
+						var sel []ast.Stmt
+						for _, s := range fd.Body.List {
+							if p.usesVar(s, p.exprKey(&ast.Ident{Name: "width"})) {
+								break
+							}
+							sel = append(sel, s)
+						}
+						widthKey := ""
+						if wo := ps[1]; wo != nil {
+							widthKey = fmt.Sprintf("%s@%d", wo.Name(), wo.Pos())
+						}
+						sel = nil
+						for _, s := range fd.Body.List {
+							if widthKey != "" && p.usesVar(s, widthKey) {
+								break
+							}
+							sel = append(sel, s)
+						}
+						flows := in.execBlock(sel, st)
+						n++
+						if in.overflow || len(flows) != 1 || flows[0].kind != flowNext {
+							bad = fmt.Sprintf("class %s (neg=%v, '+'=%v, ' '=%v): the selection of the text could not be evaluated", class, neg, plus, space)
+							break
+						}
+						// the local that received a text
+						got := ""
+						found := 0
+						for o, v := range flows[0].st.vars {
+							if s, ok := v.(avStr); ok && o != recv {
+								if _, isParam := map[types.Object]bool{ps[0]: true}[o]; isParam {
+									continue
+								}
+								got = s.s
+								found++
+							}
+						}
+						last = got
+						if found != 1 || last != want(class, neg, plus, space) {
+							bad = fmt.Sprintf("%s with sign bit %v, flag '+' %v, flag ' ' %v selects %q; package fmt prints a float of that class as %q", map[string]string{"nan": "a NaN", "inf": "an infinity"}[class], neg, plus, space, last, want(class, neg, plus, space))
+							break
+						}
+					}
+				}
+			}
+		}
+		c.check(bad == "", "special:"+fn, fd, fmt.Sprintf("NaN and ±Inf select the texts package fmt prints, for every sign and sign flag (%d evaluations)", n), fn+": "+bad, props...)
+	}
+}
+
+// bytesLiteral evaluates `[]byte("...")` or `[]byte{'a', ...}`.
+func (p *Prog) bytesLiteral(e ast.Expr) (string, bool) {
+	e = ast.Unparen(e)
+	switch x := e.(type) {
+	case *ast.CallExpr:
+		if len(x.Args) == 1 {
+			if v := p.constOf(x.Args[0]); v != nil && v.Kind() == constant.String {
+				return constant.StringVal(v), true
+			}
+		}
+	case *ast.CompositeLit:
+		var b []byte
+		for _, el := range x.Elts {
+			v, ok := p.constInt64(el)
+			if !ok || v < 0 || v > 255 {
+				return "", false
+			}
+			b = append(b, byte(v))
+		}
+		return string(b), true
+	}
+	return "", false
 }
